@@ -36,6 +36,7 @@ UnE(e) ==
     [] e.t = "hash" -> <<"{">> \o JoinWith([i \in 1..Len(e.ks) |-> <<e.ks[i], ":", " ">> \o UnE(e.vs[i])], <<",", " ">>) \o <<"}">>
     [] e.t = "idx"  -> UnE(e.l) \o <<"[">> \o UnE(e.i) \o <<"]">>
     [] e.t = "dot"  -> UnE(e.l) \o <<".", e.n>>
+    [] e.t = "mcall" -> UnE(e.l) \o <<".", e.n, "(", ")">>
     [] e.t = "call" -> <<e.f, "(">> \o JoinWith([i \in 1..Len(e.args) |-> UnE(e.args[i])], <<",", " ">>) \o <<")">>
                          \o (IF e.blk = NoBlock THEN <<>> ELSE Block(e.blk))
     [] e.t = "fn"   -> <<"fn", "(">> \o JoinWith([i \in 1..Len(e.ps) |-> <<e.ps[i]>>], <<",", " ">>) \o <<")">> \o Block(e.body)
@@ -72,6 +73,7 @@ Arr(xs)     == [t |-> "arr", xs |-> xs]
 Hash(ks, vs) == [t |-> "hash", ks |-> ks, vs |-> vs]
 Idx(l, i)   == [t |-> "idx", l |-> l, i |-> i]
 Dot(l, n)   == [t |-> "dot", l |-> l, n |-> n]
+MCall(l, n) == [t |-> "mcall", l |-> l, n |-> n]
 Call(f, args) == [t |-> "call", f |-> f, args |-> args, blk |-> NoBlock]
 CallB(f, args, blk) == [t |-> "call", f |-> f, args |-> args, blk |-> blk]
 FnLit(ps, body) == [t |-> "fn", ps |-> ps, body |-> body]
